@@ -1,7 +1,11 @@
-//! Conformance drivers (pv-u5c). Sub-commands are added per property.
+//! Conformance drivers for pallas-utxorpc (C44).
+mod c44;
+
 fn main() {
     let args = pv_core::Args::parse();
     match args.cmd.as_str() {
+        "u5c-ints" => c44::ints(&args),
+        "u5c-blocks" => c44::blocks(&args),
         other => pv_core::die(&format!("unknown sub-command {other}")),
     }
 }
